@@ -9,6 +9,7 @@ import (
 	"time"
 	"unicode/utf16"
 
+	"github.com/matrix-org/gomatrixserverlib/spec"
 	"pgregory.net/rapid"
 )
 
@@ -99,6 +100,12 @@ func c04StrippedKeys(version string) []string {
 	}
 	return c04Stripped
 }
+
+// c04StateResp is a /state answer holding the given lists.
+type c04StateResp struct{ state, auth EventJSONs }
+
+func (r c04StateResp) GetStateEvents() EventJSONs { return r.state }
+func (r c04StateResp) GetAuthEvents() EventJSONs  { return r.auth }
 
 func c04Check(ctx *vfCtx, c c04Case) {
 	impl, err := GetRoomVersion(RoomVersion(c.Version))
@@ -249,6 +256,27 @@ func c04Check(ctx *vfCtx, c c04Case) {
 	if !ok {
 		return
 	}
+	// the bulk entry points for events off the wire hand out the same thing as the single-event parser
+	for _, bulk := range []string{"EventJSONs.UntrustedEvents", "LineariseStateResponse"} {
+		var list []PDU
+		if vfCatch(ctx, "C04/"+bulk, func() {
+			raw := EventJSONs{spec.RawJSON(append([]byte(nil), wire...))}
+			if bulk == "LineariseStateResponse" {
+				list = LineariseStateResponse(RoomVersion(c.Version), c04StateResp{state: raw})
+			} else {
+				list = raw.UntrustedEvents(RoomVersion(c.Version))
+			}
+		}) {
+			return
+		}
+		if len(list) != 1 || list[0] == nil {
+			ctx.Fail("C04/bulk-path-differs/"+bulk, "the single-event parser accepts the event, %s returns %d events; wire=%q", bulk, len(list), wire)
+			continue
+		}
+		if string(list[0].JSON()) != string(ev.JSON()) || list[0].Redacted() != ev.Redacted() {
+			ctx.Fail("C04/bulk-path-differs/"+bulk, "%s hands out %q (redacted=%v), the single-event parser %q (redacted=%v)", bulk, list[0].JSON(), list[0].Redacted(), ev.JSON(), ev.Redacted())
+		}
+	}
 	got, gerr := evTree(ev.JSON())
 	if gerr != nil {
 		ctx.Fail("C04/json-malformed", "JSON() malformed: %v", gerr)
@@ -325,6 +353,26 @@ func c04Check(ctx *vfCtx, c c04Case) {
 	var serr error
 	if vfCatch(ctx, "C04", func() { serr = VerifyEventSignatures(context.Background(), ev, stub, vfUserIDForSender) }) {
 		return
+	}
+	// ... and, whoever has to sign this kind of event (the invited user's server, the authorising
+	// user's server): if only redactable material was altered, the verdict is the original event's
+	if sameRedaction && len(c.Tampers) > 0 {
+		var oev PDU
+		var oerr, serr0 error
+		if vfCatch(ctx, "C04/original", func() {
+			oev, oerr = impl.NewEventFromUntrustedJSON([]byte(jplain(orig)))
+			if oerr == nil && oev != nil {
+				serr0 = VerifyEventSignatures(context.Background(), oev, stub, vfUserIDForSender)
+			}
+		}) {
+			return
+		}
+		if oerr == nil && oev != nil {
+			ctx.Class(fmt.Sprintf("signature-verdict-compared-with-the-original/original-verifies=%v", serr0 == nil))
+			if (serr0 == nil) != (serr == nil) {
+				ctx.Fail("C04/signature-verdict-changed-by-redactable-tampering"+kc, "only redactable material was altered; the original event's signatures give %v, the tampered copy's %v; wire=%q", serr0, serr, wire)
+			}
+		}
 	}
 	senderDomain := ""
 	if _, d, e := SplitID('@', view.Sender); e == nil {
